@@ -532,10 +532,9 @@ Section WithHash.
   Lemma do_reopen_contig s : contig s -> contig (fst (do_reopen s)).
   Proof.
     intros C. pose proof C as (OK & VL & IV0 & IV).
-    destruct (do_reopen_spec s OK) as [(F & E)|(NE & r & L & E)]; rewrite E; cbn [fst];
-      apply contig_intro; auto.
-    - apply forest_ok_nil.
-    - left. auto.
+    destruct (do_reopen_spec s OK) as [(F & E)|(NE & r & L & E)]; rewrite E; cbn [fst].
+    - apply contig_intro; [apply forest_ok_nil|left; repeat split; reflexivity|exact IV0|exact IV].
+    - apply contig_intro; [exact OK|right; exact L|exact IV0|exact IV].
   Qed.
 
   Theorem step_contig s o : contig s -> in_contract s o -> contig (fst (step H s o)).
@@ -608,3 +607,874 @@ Section WithHash.
     init_ok iv b -> run_ok (init_state iv b) ops -> contig (fst (run H (init_state iv b) ops)).
   Proof. intros I R. apply run_contig; [apply contig_init, I|exact R]. Qed.
 End WithHash.
+
+(** ** C14: the available versions are one contiguous range and every query agrees with it *)
+
+(** [v] is a retained version *)
+Definition in_range (s : mstate) (v : Z) : Prop :=
+  forest s <> [] /\ first_version s <= v <= latest_version s.
+
+Theorem available_range s :
+  contig s ->
+  (forest s = [] /\ available s = [] /\ first_version s = 0 /\ latest_version s = 0 /\
+   version s = 0) \/
+  (forest s <> [] /\ 1 <= first_version s <= latest_version s /\
+   init_ver s <= first_version s /\
+   first_version s <= version s <= latest_version s /\
+   available s = zrange (first_version s) (latest_version s)).
+Proof.
+  intros C. destruct (contig_cases s C) as [(V & F & _)|(NE & _ & R & _)].
+  - left. unfold available, first_version, latest_version. rewrite F. auto.
+  - right. destruct (contig_range s (contig_forest_ok s C) NE) as (R1 & R2 & R3). auto.
+Qed.
+
+Theorem in_range_available s v : contig s -> (In v (available s) <-> in_range s v).
+Proof. intros C. exact (forest_ok_In (forest s) (init_ver s) v (contig_forest_ok s C)). Qed.
+
+Theorem in_range_version_exists s v : contig s -> (version_exists s v = true <-> in_range s v).
+Proof. intros C. rewrite version_exists_In. apply in_range_available, C. Qed.
+
+Theorem in_range_lookup s v :
+  contig s -> ((exists t, lookup v (forest s) = Some t) <-> in_range s v).
+Proof. intros C. exact (forest_ok_lookup (forest s) (init_ver s) v (contig_forest_ok s C)). Qed.
+
+Theorem out_of_range_lookup s v : contig s -> (lookup v (forest s) = None <-> ~ in_range s v).
+Proof.
+  intros C. rewrite <- (in_range_lookup s v C). destruct (lookup v (forest s)) as [t|].
+  - split; [discriminate|]. intros N. exfalso. apply N. eauto.
+  - split; [|reflexivity]. intros _ [t E]. discriminate.
+Qed.
+
+Lemma in_range_pos s v : contig s -> in_range s v -> 1 <= v.
+Proof.
+  intros C [NE R]. destruct (contig_range s (contig_forest_ok s C) NE) as (R1 & _). lia.
+Qed.
+
+Section C14.
+  Variable H : bytes -> bytes.
+
+  (** GetImmutable / the reads on a committed version *)
+  Theorem read_version_in_range s v :
+    contig s -> in_range s v ->
+    exists t, lookup v (forest s) = Some t /\
+      (forall r, step H s (ORead (TVersion v) r) = (s, tree_read H (v + 1) t r)) /\
+      (forall k, step H s (OGetVersioned k v) =
+                 (s, XBytes (match t with Some n => snd (get n k) | None => None end))).
+  Proof.
+    intros C R. destruct (proj2 (in_range_lookup s v C) R) as [t L]. exists t.
+    split; [exact L|]. split; intros x; cbn [step]; rewrite L; [reflexivity|].
+    destruct t; reflexivity.
+  Qed.
+
+  Theorem read_version_out_of_range s v :
+    contig s -> ~ in_range s v ->
+    (forall r, step H s (ORead (TVersion v) r) = (s, XErr)) /\
+    (forall k, step H s (OGetVersioned k v) = (s, XBytes None)).
+  Proof.
+    intros C R. apply (out_of_range_lookup s v C) in R.
+    split; intros x; cbn [step]; rewrite R; reflexivity.
+  Qed.
+
+  Theorem version_exists_step s v :
+    contig s ->
+    exists b, step H s (OVersionExists v) = (s, XBool b) /\ (b = true <-> in_range s v).
+  Proof.
+    intros C. exists (version_exists s v). split; [reflexivity|]. apply in_range_version_exists, C.
+  Qed.
+
+  Theorem latest_available_step s :
+    contig s ->
+    step H s OLatest = (s, XInt (latest_version s)) /\
+    step H s OAvailable =
+      (s, XInts (if list_eq_dec Z.eq_dec (available s) [] then []
+                 else zrange (first_version s) (latest_version s))).
+  Proof.
+    intros C. split; [reflexivity|]. cbn [step].
+    destruct (available_range s C) as [(_ & A & _)|(NE & _ & _ & _ & A)].
+    - rewrite A. reflexivity.
+    - destruct (list_eq_dec Z.eq_dec (available s) []) as [E|_]; [|rewrite A; reflexivity].
+      exfalso. apply NE. unfold available in E. destruct (forest s); [reflexivity|discriminate].
+  Qed.
+
+  (** LoadVersion *)
+  Theorem load_in_range s v :
+    contig s -> in_range s v ->
+    exists t, lookup v (forest s) = Some t /\
+      step H s (OLoad v) =
+        (MState t v t (forest s) (init_ver s) (init_set s) (init_opt s), XInt (latest_version s)).
+  Proof.
+    intros C R. pose proof (in_range_pos s v C R) as P. destruct R as [NE R]. cbn [step].
+    destruct (do_load_nonempty s v (contig_forest_ok s C) NE) as [In _].
+    replace (v <=? 0) with false in In by (symmetry; apply Z.leb_gt; lia). exact (In R).
+  Qed.
+
+  Theorem load_latest s v :
+    contig s -> v <= 0 ->
+    (forest s = [] /\ step H s (OLoad v) = (s, XInt 0)) \/
+    (forest s <> [] /\ exists t, lookup (latest_version s) (forest s) = Some t /\
+      step H s (OLoad v) =
+        (MState t (latest_version s) t (forest s) (init_ver s) (init_set s) (init_opt s),
+         XInt (latest_version s))).
+  Proof.
+    intros C P. cbn [step]. destruct (nil_or_not (forest s)) as [E|NE].
+    - left. split; [exact E|]. rewrite (do_load_empty s v E).
+      replace (v <=? 0) with true by (symmetry; apply Z.leb_le; exact P). reflexivity.
+    - right. split; [exact NE|].
+      destruct (do_load_nonempty s v (contig_forest_ok s C) NE) as [In _].
+      replace (v <=? 0) with true in In by (symmetry; apply Z.leb_le; exact P).
+      destruct (contig_range s (contig_forest_ok s C) NE) as (R1 & _).
+      apply In. lia.
+  Qed.
+
+  Theorem load_out_of_range s v :
+    contig s -> 0 < v -> ~ in_range s v -> step H s (OLoad v) = (s, XErr).
+  Proof.
+    intros C P R. cbn [step]. destruct (nil_or_not (forest s)) as [E|NE].
+    - rewrite (do_load_empty s v E).
+      replace (v <=? 0) with false by (symmetry; apply Z.leb_gt; exact P). reflexivity.
+    - destruct (do_load_nonempty s v (contig_forest_ok s C) NE) as [_ Out].
+      replace (v <=? 0) with false in Out by (symmetry; apply Z.leb_gt; exact P).
+      apply Out. intros R'. apply R. split; assumption.
+  Qed.
+
+  (** a failed load / query leaves the tree usable: the state is literally unchanged, so in
+      particular it still satisfies [contig] and every later step behaves as before *)
+  Corollary failed_queries_harmless s v :
+    contig s -> 0 < v -> ~ in_range s v ->
+    fst (step H s (OLoad v)) = s /\
+    (forall r, fst (step H s (ORead (TVersion v) r)) = s) /\
+    (forall k, fst (step H s (OGetVersioned k v)) = s) /\
+    fst (step H s (OVersionExists v)) = s.
+  Proof.
+    intros C P R. rewrite (load_out_of_range s v C P R).
+    destruct (read_version_out_of_range s v C R) as [A B].
+    repeat split; intros; rewrite ?A, ?B; reflexivity.
+  Qed.
+
+  (** Commit numbering: a commit that creates a version creates the successor of the latest one,
+      or the initial version / 1 on an empty store; the range is extended at the end. *)
+  Theorem save_new_version s :
+    contig s -> lookup (working_version s) (forest s) = None ->
+    let wv := working_version s in
+    exists r',
+      oelems r' = oelems (root s) /\
+      do_save H s =
+        (MState r' wv r' (forest s ++ [(wv, r')]) (init_ver s) false (init_opt s),
+         XPair (XBytes (Some (root_hash H wv r'))) (XInt wv)) /\
+      ((forest s = [] /\ wv = (if init_opt s then init_ver s else 1)) \/
+       (forest s <> [] /\ version s = latest_version s /\ wv = latest_version s + 1)) /\
+      available (fst (do_save H s)) = available s ++ [wv] /\
+      latest_version (fst (do_save H s)) = wv /\
+      contig (fst (do_save H s)).
+  Proof.
+    intros C L wv. destruct (do_save_new H s L) as (r' & El & E). exists r'.
+    split; [exact El|]. split; [exact E|]. split.
+    - destruct (do_save_numbering s C L) as [(F & V & W)|(NE & V & W)]; [left|right]; auto.
+    - split; [|split].
+      + rewrite E. unfold available. cbn [fst forest]. rewrite map_app. reflexivity.
+      + rewrite E. unfold latest_version. cbn [fst forest]. apply latest_snoc.
+      + apply do_save_contig, C.
+  Qed.
+
+  (** the hash test of SaveVersion on an existing version *)
+  Definition same_root_hash (wv : Z) (existing r : option node) : Prop :=
+    match existing, r with
+    | None, None => True
+    | Some e, _ => hs (nmeta e) = root_hash H wv r
+    | None, Some _ => False
+    end.
+
+  (** Committing an existing version number: succeeds without effect on the store iff the
+      hashes agree (the working tree becomes the stored one), otherwise fails and leaves
+      root, version, last saved tree and all retained versions unchanged. *)
+  Theorem save_existing_sharp s e :
+    lookup (working_version s) (forest s) = Some e ->
+    let wv := working_version s in
+    (same_root_hash wv e (root s) /\
+     do_save H s =
+       (MState e wv e (forest s) (init_ver s) false (init_opt s),
+        XPair (XBytes (Some (root_hash H wv (root s)))) (XInt wv))) \/
+    (~ same_root_hash wv e (root s) /\
+     do_save H s =
+       (MState (root s) (version s) (last_saved s) (forest s) (init_ver s) false (init_opt s),
+        XErr)).
+  Proof.
+    intros L wv. unfold do_save, version_exists. cbv zeta. rewrite L. fold wv.
+    unfold same_root_hash. destruct e as [e|]; [|destruct (root s) as [n|]].
+    - destruct (list_eq_dec N.eq_dec (hs (nmeta e)) (root_hash H wv (root s))) as [E|NE];
+        [left|right]; split; auto.
+    - right. split; [tauto|reflexivity].
+    - left. split; [exact I|reflexivity].
+  Qed.
+
+  (** every step's result on SaveVersion: new version, accepted overwrite, or rejected *)
+  Theorem save_cases s :
+    contig s ->
+    let wv := working_version s in
+    (~ in_range s wv /\ lookup wv (forest s) = None) \/
+    (in_range s wv /\ exists e, lookup wv (forest s) = Some e).
+  Proof.
+    intros C wv. destruct (lookup wv (forest s)) as [e|] eqn:L.
+    - right. split; [|eauto]. apply (in_range_lookup s wv C). eauto.
+    - left. split; [|reflexivity]. apply (out_of_range_lookup s wv C). exact L.
+  Qed.
+
+  (** Reopening: the retained range is unchanged and the latest version is loaded. *)
+  Theorem reopen_spec s :
+    contig s ->
+    let s' := fst (do_reopen s) in
+    step H s OReopen = (s', XOk) /\
+    forest s' = forest s /\ available s' = available s /\
+    first_version s' = first_version s /\ latest_version s' = latest_version s /\
+    init_ver s' = init_ver s /\ init_opt s' = init_opt s /\ init_set s' = init_opt s /\
+    version s' = latest_version s /\ root s' = last_saved s' /\
+    (forest s = [] -> root s' = None) /\
+    (forest s <> [] -> lookup (latest_version s) (forest s) = Some (root s')) /\
+    contig s'.
+  Proof.
+    intros C s'. pose proof (do_reopen_contig s C) as C'. fold s' in C'.
+    cbn [step]. unfold s' in *. clear s'.
+    destruct (do_reopen_spec s (contig_forest_ok s C)) as [(F & E)|(NE & r & L & E)]; rewrite E in *;
+      cbn [fst]; unfold available, first_version, latest_version;
+      cbn [root version last_saved forest init_ver init_set init_opt].
+    - rewrite F. cbn [fold_left].
+      repeat match goal with |- _ /\ _ => split end; auto. intros N. congruence.
+    - repeat match goal with |- _ /\ _ => split end; auto. intros N. congruence.
+  Qed.
+End C14.
+
+(** ** C09: rollback and LoadVersionForOverwriting *)
+
+Lemma first_of_hd {A} (f : list (Z * A)) : first_of f = hd 0 (map fst f).
+Proof. destruct f as [|[w a] f]; reflexivity. Qed.
+
+Lemma range_of_available s lo hi :
+  lo <= hi -> available s = zrange lo hi -> first_version s = lo /\ latest_version s = hi.
+Proof.
+  intros L A. rewrite latest_version_last, first_version_of, first_of_hd.
+  fold (available s). rewrite A. unfold zrange.
+  replace (Z.to_nat (hi - lo + 1)) with (S (Z.to_nat (hi - lo))) by lia.
+  split; [reflexivity|]. rewrite zseq_last. lia.
+Qed.
+
+(** operations that can only change the working tree *)
+Definition root_only (o : op) : bool :=
+  match o with
+  | OSet _ _ | OSetNil _ | ORemove _ | ORead _ _ | OGetVersioned _ _ | OVersionExists _
+  | OLatest | OAvailable | OWorkingHash | OWorkingVersion | OHash => true
+  | _ => false
+  end.
+
+(** operations allowed after the base state of [lvfo_equals_history_ended_at_v]: no pruning,
+    no rollback below [v] *)
+Definition no_prune_above (v : Z) (o : op) : bool :=
+  match o with
+  | OPrune _ => false
+  | OLvfo w => v <=? w
+  | _ => true
+  end.
+
+Definition set_init_set (s : mstate) (b : bool) : mstate :=
+  MState (root s) (version s) (last_saved s) (forest s) (init_ver s) b (init_opt s).
+
+(** the state right after committing (or loading for overwriting) the latest version [v] *)
+Definition base_state (s : mstate) (v : Z) : Prop :=
+  contig s /\ 1 <= v /\ version s = v /\ latest_version s = v /\ root s = last_saved s.
+
+Section C09.
+  Variable H : bytes -> bytes.
+
+  Lemma root_only_step s o : root_only o = true -> same_but_root s (fst (step H s o)).
+  Proof.
+    destruct o as [k v|k|k| | | |v|n|v|t r|k v|v| | | | | ]; cbn [root_only step]; intros R;
+      try discriminate R; try apply same_but_root_refl.
+    - apply do_set_same.
+    - apply do_remove_same.
+    - destruct t as [|v]; [apply same_but_root_refl|].
+      destruct (lookup v (forest s)); apply same_but_root_refl.
+    - destruct (lookup v (forest s)) as [[n|]|]; apply same_but_root_refl.
+  Qed.
+
+  Lemma root_only_run ops : forall s,
+    forallb root_only ops = true -> same_but_root s (fst (run H s ops)).
+  Proof.
+    induction ops as [|o ops IH]; intros s R; [apply same_but_root_refl|].
+    cbn [forallb] in R. apply andb_true_iff in R. destruct R as [R1 R2].
+    rewrite run_cons. cbn [fst]. eapply same_but_root_trans; [apply root_only_step, R1|].
+    apply IH, R2.
+  Qed.
+
+  (** Rollback: the working tree becomes the last committed tree and nothing else moves; under
+      [contig] that tree is the retained tree of [version s] (the empty tree on an empty
+      store), the state equals the one LoadVersion(version s) produces, and every read of the
+      working tree coincides with the same read of the committed version. *)
+  Theorem rollback_is_last_saved s :
+    contig s ->
+    let s' := fst (step H s ORollback) in
+    snd (step H s ORollback) = XOk /\
+    root s' = last_saved s /\ same_but_root s s' /\ contig s' /\
+    (version s = 0 -> root s' = None /\ forest s' = []) /\
+    (version s <> 0 ->
+       lookup (version s) (forest s') = Some (root s') /\
+       s' = fst (step H s (OLoad (version s))) /\
+       working_version s' = version s + 1 /\
+       forall r, step H s' (ORead TWorking r) = step H s' (ORead (TVersion (version s)) r)).
+  Proof.
+    intros C s'. unfold s'. clear s'. rewrite rollback_spec. cbn [fst snd].
+    set (s' := MState (if 0 <? version s then last_saved s else None) (version s) (last_saved s)
+                      (forest s) (init_ver s) (init_set s) (init_opt s)).
+    assert (SB : same_but_root s s') by (unfold same_but_root, s'; cbn; tauto).
+    assert (C' : contig s') by exact (contig_same_but_root _ _ SB C).
+    split; [reflexivity|].
+    destruct (contig_cases s C) as [(V & F & LS & _)|(NE & L & R & P & W)].
+    - assert (Rt : root s' = None) by (unfold s'; cbn [root]; rewrite V; reflexivity).
+      split; [rewrite LS; exact Rt|]. split; [exact SB|]. split; [exact C'|].
+      split; [intros _; split; [exact Rt|exact F]|]. intros N. congruence.
+    - assert (Es : s' = MState (last_saved s) (version s) (last_saved s) (forest s) (init_ver s)
+                               (init_set s) (init_opt s)).
+      { unfold s'. replace (0 <? version s) with true by (symmetry; apply Z.ltb_lt; lia).
+        reflexivity. }
+      clearbody s'. subst s'. cbn [root forest].
+      split; [reflexivity|]. split; [exact SB|]. split; [exact C'|].
+      split; [intros V; lia|]. intros _.
+      assert (IR : in_range s (version s)) by (split; assumption).
+      destruct (load_in_range H s (version s) C IR) as (t & L' & E).
+      rewrite E. cbn [fst]. rewrite L in L'. inversion L'; subst t.
+      assert (W' : working_version
+               (MState (last_saved s) (version s) (last_saved s) (forest s) (init_ver s)
+                       (init_set s) (init_opt s)) = version s + 1).
+      { unfold working_version in *. cbn [version init_set init_ver]. exact W. }
+      split; [exact L|]. split; [reflexivity|]. split; [exact W'|].
+      intros r. cbn [step forest root]. rewrite L, W'. reflexivity.
+  Qed.
+
+  (** Discarding uncommitted changes returns exactly to the last committed state: whatever
+      writes and reads happened since, rollback restores the state bit for bit. *)
+  Theorem rollback_restores s0 ops :
+    contig s0 -> root s0 = last_saved s0 -> forallb root_only ops = true ->
+    step H (fst (run H s0 ops)) ORollback = (s0, XOk).
+  Proof.
+    intros C R RO. destruct (root_only_run ops s0 RO) as (E1 & E2 & E3 & E4 & E5 & E6).
+    rewrite rollback_spec. rewrite E1, E2, E3, E4, E5, E6. f_equal.
+    destruct (contig_cases s0 C) as [(V & F & LS & _)|(NE & L & Rg & P & W)].
+    - destruct s0 as [r ver ls f iv a b]. cbn in *. subst. reflexivity.
+    - replace (0 <? version s0) with true by (symmetry; apply Z.ltb_lt; lia).
+      destruct s0 as [r ver ls f iv a b]. cbn in *. subst. reflexivity.
+  Qed.
+
+  (** LoadVersionForOverwriting(v) removes every version greater than [v] and nothing else. *)
+  Theorem lvfo_removes_exactly s v :
+    contig s -> in_range s v ->
+    let s' := fst (step H s (OLvfo v)) in
+    exists t,
+      lookup v (forest s) = Some t /\
+      step H s (OLvfo v) =
+        (MState t v t (filter (fun p => fst p <=? v) (forest s))
+                (init_ver s) (init_set s) (init_opt s), XOk) /\
+      (forall w, w <= v -> lookup w (forest s') = lookup w (forest s)) /\
+      (forall w, v < w -> lookup w (forest s') = None) /\
+      first_version s' = first_version s /\ latest_version s' = v /\
+      available s' = zrange (first_version s) v /\
+      contig s'.
+  Proof.
+    intros C IR s'. pose proof (in_range_pos s v C IR) as P.
+    destruct (load_in_range H s v C IR) as (t & L & E). cbn [step] in E.
+    assert (E' : step H s (OLvfo v) =
+        (MState t v t (filter (fun p => fst p <=? v) (forest s))
+                (init_ver s) (init_set s) (init_opt s), XOk)).
+    { cbn [step]. unfold do_lvfo. rewrite E. reflexivity. }
+    assert (C' : contig s') by (apply step_contig; assumption).
+    unfold s' in *. clear s'. rewrite E' in *. cbn [fst forest] in *.
+    exists t. split; [exact L|]. split; [reflexivity|].
+    split; [|split].
+    - intros w Hw. rewrite lookup_filter_le.
+      replace (w <=? v) with true by (symmetry; apply Z.leb_le; exact Hw). reflexivity.
+    - intros w Hw. rewrite lookup_filter_le.
+      replace (w <=? v) with false by (symmetry; apply Z.leb_gt; exact Hw). reflexivity.
+    - destruct IR as [NE R].
+      destruct (contig_range s (contig_forest_ok s C) NE) as (R1 & _ & A).
+      set (s' := MState t v t (filter (fun p => fst p <=? v) (forest s))
+                        (init_ver s) (init_set s) (init_opt s)) in *.
+      assert (A' : available s' = zrange (first_version s) v).
+      { unfold available, s'. cbn [forest]. rewrite (map_fst_filter (fun x => x <=? v)).
+        fold (available s). rewrite A. unfold zrange. rewrite filter_le_zseq. f_equal. lia. }
+      destruct (range_of_available s' (first_version s) v (proj1 R) A') as [F' L'].
+      auto.
+  Qed.
+
+  Theorem lvfo_out_of_range s v :
+    contig s -> 0 < v -> ~ in_range s v -> step H s (OLvfo v) = (s, XErr).
+  Proof.
+    intros C P R. pose proof (load_out_of_range H s v C P R) as E. cbn [step] in *.
+    unfold do_lvfo. rewrite E. reflexivity.
+  Qed.
+
+  (** *** The history after [v] leaves no trace *)
+
+  (** invariant of the histories that start in the base state: the retained versions up to [v]
+      are exactly those of the base state *)
+  Definition extends (s1 : mstate) (v : Z) (s : mstate) : Prop :=
+    contig s /\ filter (fun p => fst p <=? v) (forest s) = forest s1 /\
+    init_ver s = init_ver s1 /\ init_opt s = init_opt s1.
+
+  Lemma base_lookup s1 v :
+    base_state s1 v -> lookup v (forest s1) = Some (last_saved s1) /\ forest s1 <> [].
+  Proof.
+    intros (C & P & V & L & R).
+    destruct (contig_cases s1 C) as [(V0 & _)|(NE & L' & _)]; [lia|].
+    rewrite V in L'. auto.
+  Qed.
+
+  Lemma extends_base s1 v : base_state s1 v -> extends s1 v s1.
+  Proof.
+    intros B. pose proof B as (C & P & V & L & R). split; [exact C|]. split; [|auto].
+    apply filter_all. intros [w t] I. cbn [fst]. apply Z.leb_le.
+    assert (Iw : In w (available s1)).
+    { apply in_map_iff. exists (w, t). auto. }
+    apply (in_range_available s1 w C) in Iw. destruct Iw as [_ Rg]. lia.
+  Qed.
+
+  Lemma extends_lookup s1 v s :
+    base_state s1 v -> extends s1 v s ->
+    lookup v (forest s) = Some (last_saved s1) /\ in_range s v.
+  Proof.
+    intros B (C & F & _). destruct (base_lookup s1 v B) as [L _].
+    assert (L' : lookup v (forest s) = Some (last_saved s1)).
+    { rewrite <- F, lookup_filter_le, Z.leb_refl in L. exact L. }
+    split; [exact L'|]. apply (in_range_lookup s v C). eauto.
+  Qed.
+
+  Lemma extends_step s1 v s o :
+    base_state s1 v -> extends s1 v s -> in_contract s o -> no_prune_above v o = true ->
+    extends s1 v (fst (step H s o)).
+  Proof.
+    intros B E IC NP. pose proof (extends_lookup s1 v s B E) as [Lv IR].
+    pose proof E as (C & F & I1 & I2).
+    pose proof (step_contig H s o C IC) as C'.
+    split; [exact C'|]. clear C'.
+    destruct o as [k x|k|k| | | |w|n|w|t r|k w|w| | | | | ]; cbn [step no_prune_above in_contract] in *;
+      try discriminate NP; try (split; [exact F|split; [exact I1|exact I2]]).
+    - destruct (do_set_same s k x) as (_ & _ & E3 & E4 & _ & E6). rewrite E3, E4, E6. auto.
+    - destruct (do_remove_same s k) as (_ & _ & E3 & E4 & _ & E6). rewrite E3, E4, E6. auto.
+    - (* save *)
+      destruct (lookup (working_version s) (forest s)) as [e|] eqn:L.
+      + destruct (do_save_existing H s e L) as [E'|E']; rewrite E'; cbn [fst forest init_ver init_opt]; auto.
+      + destruct (save_new_version H s C L) as (r' & _ & E' & Num & _). rewrite E'.
+        cbn [fst forest init_ver init_opt]. split; [|auto].
+        rewrite filter_app. cbn [filter fst].
+        destruct Num as [(F0 & _)|(_ & _ & W)]; [destruct IR as [NE _]; congruence|].
+        destruct IR as [_ R].
+        replace (working_version s <=? v) with false by (symmetry; apply Z.leb_gt; lia).
+        rewrite app_nil_r. exact F.
+    - (* reopen *)
+      destruct (reopen_spec H s C) as (_ & E3 & _ & _ & _ & E4 & E6 & _).
+      rewrite E3, E4, E6. auto.
+    - (* load *)
+      destruct (do_load_cases s w) as [E'|[(_ & _ & E')|(tv & r & _ & E')]]; rewrite E'; auto.
+    - (* lvfo w, v <= w *)
+      apply Z.leb_le in NP. unfold do_lvfo.
+      destruct (do_load_pos s w) as [E'|(r & L & E')]; [lia| |]; rewrite E'; cbn [fst]; auto.
+      cbn [forest init_ver init_opt]. rewrite (filter_le_le v w _ NP). auto.
+    - destruct t as [|w]; [auto|]. destruct (lookup w (forest s)); auto.
+    - destruct (lookup w (forest s)) as [[n|]|]; auto.
+  Qed.
+
+  Lemma extends_run s1 v ops : forall s,
+    base_state s1 v -> extends s1 v s -> run_ok H s ops ->
+    forallb (no_prune_above v) ops = true ->
+    extends s1 v (fst (run H s ops)).
+  Proof.
+    induction ops as [|o ops IH]; intros s B E R NP; [exact E|].
+    cbn [forallb] in NP. apply andb_true_iff in NP. destruct NP as [NP1 NP2].
+    destruct R as [IC R]. rewrite run_cons. cbn [fst]. apply IH; auto.
+    apply extends_step; assumption.
+  Qed.
+
+  (** THE theorem: whatever happened after the base state (commits, overwrites, loads, reopens,
+      rollbacks to later versions), LoadVersionForOverwriting(v) restores the base state in
+      every field except the [initialVersionSet] flag, which keeps its current value. *)
+  Theorem lvfo_equals_history_ended_at_v s1 v ops :
+    base_state s1 v -> run_ok H s1 ops -> forallb (no_prune_above v) ops = true ->
+    let s2 := fst (run H s1 ops) in
+    step H s2 (OLvfo v) = (set_init_set s1 (init_set s2), XOk).
+  Proof.
+    intros B R NP s2.
+    pose proof (extends_run s1 v ops s1 B (extends_base s1 v B) R NP) as E. fold s2 in E.
+    destruct (extends_lookup s1 v s2 B E) as [L IR]. destruct E as (C & F & I1 & I2).
+    destruct (lvfo_removes_exactly s2 v C IR) as (t & L' & E' & _).
+    rewrite E'. rewrite L in L'. inversion L'; subst t. rewrite F, I1, I2.
+    destruct B as (_ & _ & V & _ & Rt). unfold set_init_set. rewrite Rt, V. reflexivity.
+  Qed.
+
+  (** hence every future of the rolled-back tree is the future of the tree whose history
+      ended at [v] (outputs and states), for all continuations *)
+  Corollary lvfo_same_future s1 v ops ops' :
+    base_state s1 v -> run_ok H s1 ops -> forallb (no_prune_above v) ops = true ->
+    let s2 := fst (run H s1 ops) in
+    run H (fst (step H s2 (OLvfo v))) ops' = run H (set_init_set s1 (init_set s2)) ops'.
+  Proof.
+    intros B R NP s2. unfold s2. rewrite (lvfo_equals_history_ended_at_v s1 v ops B R NP).
+    reflexivity.
+  Qed.
+End C09.
+
+(** ** C04: pruning *)
+Lemma latest_filter_gt {A} n (f : list (Z * A)) :
+  n < latest_of f -> latest_of (filter (fun p => n <? fst p) f) = latest_of f.
+Proof.
+  unfold latest_of. destruct f as [|p f] using rev_ind; [reflexivity|].
+  rewrite fold_left_app. cbn [fold_left]. intros L.
+  rewrite filter_app. cbn [filter].
+  replace (n <? fst p) with true by (symmetry; apply Z.ltb_lt; exact L).
+  rewrite fold_left_app. reflexivity.
+Qed.
+
+Section C04.
+  Variable H : bytes -> bytes.
+
+  (** A request that would delete the latest version is rejected and has no effect. *)
+  Theorem prune_rejects_latest s n :
+    latest_version s <= n -> step H s (OPrune n) = (s, XErr).
+  Proof.
+    intros L. cbn [step]. unfold do_prune.
+    replace (latest_version s <=? n) with true by (symmetry; apply Z.leb_le; exact L). reflexivity.
+  Qed.
+
+  (** Otherwise exactly the versions <= n disappear; every later version keeps the very same
+      tree value; the working tree and the bookkeeping fields are untouched. *)
+  Theorem prune_keeps_later_versions s n :
+    n < latest_version s ->
+    let s' := fst (step H s (OPrune n)) in
+    step H s (OPrune n) =
+      (MState (root s) (version s) (last_saved s) (filter (fun p => n <? fst p) (forest s))
+              (init_ver s) (init_set s) (init_opt s), XOk) /\
+    (forall v, n < v -> lookup v (forest s') = lookup v (forest s)) /\
+    (forall v, v <= n -> lookup v (forest s') = None) /\
+    root s' = root s /\ version s' = version s /\ last_saved s' = last_saved s /\
+    init_ver s' = init_ver s /\ init_set s' = init_set s /\ init_opt s' = init_opt s /\
+    working_version s' = working_version s /\
+    latest_version s' = latest_version s.
+  Proof.
+    intros L s'. unfold s'. clear s'. cbn [step].
+    destruct (do_prune_cases s n) as [[C _]|[_ E]]; [lia|]. rewrite E. cbn [fst].
+    split; [reflexivity|]. split; [|split].
+    - intros v Hv. cbn [forest]. rewrite lookup_filter_gt.
+      replace (n <? v) with true by (symmetry; apply Z.ltb_lt; exact Hv). reflexivity.
+    - intros v Hv. cbn [forest]. rewrite lookup_filter_gt.
+      replace (n <? v) with false by (symmetry; apply Z.ltb_ge; exact Hv). reflexivity.
+    - repeat split. unfold latest_version. cbn [forest]. apply (latest_filter_gt n (forest s)), L.
+  Qed.
+
+  (** consequently every read of a later version gives the same answer (contents, root hash,
+      every query), and every read of a deleted version fails *)
+  Theorem prune_reads_unchanged s n v :
+    n < latest_version s -> n < v ->
+    let s' := fst (step H s (OPrune n)) in
+    (forall r, snd (step H s' (ORead (TVersion v) r)) = snd (step H s (ORead (TVersion v) r))) /\
+    (forall k, snd (step H s' (OGetVersioned k v)) = snd (step H s (OGetVersioned k v))) /\
+    snd (step H s' (OVersionExists v)) = snd (step H s (OVersionExists v)).
+  Proof.
+    intros L Hv s'. destruct (prune_keeps_later_versions s n L) as (_ & K & _). fold s' in K.
+    specialize (K v Hv). split; [|split].
+    - intros r. cbn [step]. rewrite K. destruct (lookup v (forest s)); reflexivity.
+    - intros k. cbn [step]. rewrite K. destruct (lookup v (forest s)) as [[t|]|]; reflexivity.
+    - cbn [step snd]. unfold version_exists. rewrite K. reflexivity.
+  Qed.
+
+  Theorem prune_deleted_unavailable s n v :
+    n < latest_version s -> v <= n ->
+    let s' := fst (step H s (OPrune n)) in
+    (forall r, step H s' (ORead (TVersion v) r) = (s', XErr)) /\
+    (forall k, step H s' (OGetVersioned k v) = (s', XBytes None)) /\
+    step H s' (OVersionExists v) = (s', XBool false) /\
+    ~ In v (available s').
+  Proof.
+    intros L Hv s'. destruct (prune_keeps_later_versions s n L) as (_ & _ & K & _). fold s' in K.
+    specialize (K v Hv). split; [|split; [|split]].
+    - intros r. cbn [step]. rewrite K. reflexivity.
+    - intros k. cbn [step]. rewrite K. reflexivity.
+    - cbn [step]. unfold version_exists. rewrite K. reflexivity.
+    - apply lookup_None, K.
+  Qed.
+
+  Theorem prune_working_unchanged s n :
+    n < latest_version s ->
+    let s' := fst (step H s (OPrune n)) in
+    (forall r, snd (step H s' (ORead TWorking r)) = snd (step H s (ORead TWorking r))) /\
+    snd (step H s' OWorkingHash) = snd (step H s OWorkingHash) /\
+    snd (step H s' OHash) = snd (step H s OHash) /\
+    snd (step H s' OLatest) = snd (step H s OLatest).
+  Proof.
+    intros L s'.
+    destruct (prune_keeps_later_versions s n L) as (_ & _ & _ & E1 & E2 & E3 & _ & _ & _ & E4 & E5).
+    fold s' in E1, E2, E3, E4, E5. cbn [step snd]. rewrite E1, E2, E3, E4, E5. auto.
+  Qed.
+
+  (** versions that share their whole tree with a deleted version (commits without writes) and
+      empty versions survive unchanged: the retained value is the identical [option node] *)
+  Corollary prune_keeps_shared_and_empty s n v1 v2 t :
+    n < latest_version s -> v1 <= n < v2 ->
+    lookup v1 (forest s) = Some t -> lookup v2 (forest s) = Some t ->
+    let s' := fst (step H s (OPrune n)) in
+    lookup v1 (forest s') = None /\ lookup v2 (forest s') = Some t /\
+    forall r, step H s' (ORead (TVersion v2) r) = (s', tree_read H (v2 + 1) t r).
+  Proof.
+    intros L [V1 V2] L1 L2 s'.
+    destruct (prune_keeps_later_versions s n L) as (_ & K1 & K2 & _). fold s' in K1, K2.
+    split; [apply K2, V1|]. split; [rewrite (K1 v2 V2); exact L2|].
+    intros r. cbn [step]. rewrite (K1 v2 V2), L2. reflexivity.
+  Qed.
+
+  (** under the contract the range shrinks from below only *)
+  Theorem prune_range s n :
+    contig s -> forest s <> [] -> n < version s ->
+    let s' := fst (step H s (OPrune n)) in
+    snd (step H s (OPrune n)) = XOk /\
+    first_version s' = Z.max (first_version s) (n + 1) /\
+    latest_version s' = latest_version s /\
+    available s' = zrange (Z.max (first_version s) (n + 1)) (latest_version s) /\
+    version s' = version s /\ in_range s' (version s') /\
+    contig s'.
+  Proof.
+    intros C NE Hn s'. assert (C' : contig s') by (apply step_contig; assumption).
+    destruct (contig_cases s C) as [(_ & F & _)|(_ & _ & R & P & _)]; [congruence|].
+    assert (L : n < latest_version s) by lia.
+    destruct (prune_keeps_later_versions s n L) as (E & _ & _ & _ & EV & _). fold s' in EV.
+    destruct (contig_range s (contig_forest_ok s C) NE) as (R1 & _ & A).
+    assert (A' : available s' = zrange (Z.max (first_version s) (n + 1)) (latest_version s)).
+    { unfold s'. rewrite E. unfold available. cbn [fst forest].
+      rewrite (map_fst_filter (fun x => n <? x)). fold (available s). rewrite A.
+      unfold zrange. rewrite filter_gt_zseq. f_equal. lia. }
+    assert (LE : Z.max (first_version s) (n + 1) <= latest_version s) by lia.
+    destruct (range_of_available s' _ _ LE A') as [F' L'].
+    split; [rewrite E; reflexivity|]. split; [exact F'|]. split; [exact L'|].
+    split; [exact A'|]. split; [exact EV|]. split; [|exact C'].
+    apply (in_range_available s' _ C'). rewrite A', In_zrange, EV. lia.
+  Qed.
+
+  (** after a restart the pruned store still has exactly the surviving versions *)
+  Theorem prune_then_reopen s n :
+    contig s -> forest s <> [] -> n < version s ->
+    let s' := fst (step H s (OPrune n)) in
+    let s'' := fst (step H s' OReopen) in
+    snd (step H s' OReopen) = XOk /\
+    forest s'' = forest s' /\
+    version s'' = latest_version s /\
+    (forall v, n < v -> lookup v (forest s'') = lookup v (forest s)) /\
+    (forall v, v <= n -> lookup v (forest s'') = None) /\
+    contig s''.
+  Proof.
+    intros C NE Hn s' s''.
+    destruct (prune_range s n C NE Hn) as (_ & _ & L' & _ & _ & _ & C'). fold s' in L', C'.
+    destruct (reopen_spec H s' C') as (E & F & _ & _ & _ & _ & _ & _ & V & _ & _ & _ & C'').
+    destruct (contig_cases s C) as [(_ & F0 & _)|(_ & _ & R & P & _)]; [congruence|].
+    assert (L : n < latest_version s) by lia.
+    destruct (prune_keeps_later_versions s n L) as (_ & K1 & K2 & _). fold s' in K1, K2.
+    unfold s''. rewrite E. cbn [fst snd]. rewrite F.
+    repeat match goal with |- _ /\ _ => split end; auto. congruence.
+  Qed.
+
+  (** pruning twice is pruning once up to the larger bound *)
+  Theorem prune_compose s n1 n2 :
+    n1 < latest_version s -> n2 < latest_version s ->
+    step H (fst (step H s (OPrune n1))) (OPrune n2) = step H s (OPrune (Z.max n1 n2)).
+  Proof.
+    intros L1 L2.
+    destruct (prune_keeps_later_versions s n1 L1) as (E1 & _ & _ & _ & _ & _ & _ & _ & _ & _ & LL).
+    assert (L2' : n2 < latest_version (fst (step H s (OPrune n1)))) by (rewrite LL; exact L2).
+    destruct (prune_keeps_later_versions _ n2 L2') as (E2 & _).
+    assert (L3 : Z.max n1 n2 < latest_version s) by lia.
+    destruct (prune_keeps_later_versions s _ L3) as (E3 & _).
+    rewrite E2, E3, E1. cbn [fst root version last_saved forest init_ver init_set init_opt].
+    rewrite filter_gt_gt. reflexivity.
+  Qed.
+End C04.
+
+(** ** The [initialVersionSet] flag is unobservable once a version exists *)
+Lemma set_init_set_same s : set_init_set s (init_set s) = s.
+Proof. destruct s; reflexivity. Qed.
+
+Lemma do_load_upto s b v :
+  do_load (set_init_set s b) v = (set_init_set (fst (do_load s v)) b, snd (do_load s v)).
+Proof.
+  destruct s as [r ver ls f iv a io]. unfold set_init_set, do_load, first_version, latest_version.
+  cbv zeta. cbn [root version last_saved forest init_ver init_set init_opt].
+  destruct ((0 <? match f with [] => 0 | (v0, _) :: _ => v0 end) &&
+            (match f with [] => 0 | (v0, _) :: _ => v0 end <? iv)); [reflexivity|].
+  destruct (fold_left (fun _ p => fst p) f 0 <? v); [reflexivity|].
+  destruct f as [|p f]; [destruct (v <=? 0); reflexivity|].
+  destruct (lookup _ (p :: f)); reflexivity.
+Qed.
+
+Section UpToInitSet.
+  Variable H : bytes -> bytes.
+
+  Lemma step_upto_init_set s b o :
+    version s <> 0 ->
+    exists b', step H (set_init_set s b) o = (set_init_set (fst (step H s o)) b', snd (step H s o)).
+  Proof.
+    intros V. destruct o as [k x|k|k| | | |w|n|w|t q|k w|w| | | | | ]; cbn [step].
+    - destruct s as [r ver ls f iv a io]. unfold set_init_set, do_set.
+      cbn [root version last_saved forest init_ver init_set init_opt].
+      destruct r as [n|]; [destruct (set n k x)|]; cbn [fst snd root version last_saved forest init_ver init_set init_opt];
+        eexists; reflexivity.
+    - exists b. reflexivity.
+    - destruct s as [r ver ls f iv a io]. unfold set_init_set, do_remove. cbv zeta.
+      cbn [root version last_saved forest init_ver init_set init_opt].
+      destruct r as [n|]; [destruct (rm_val (remove n k))|];
+        cbn [fst snd root version last_saved forest init_ver init_set init_opt]; eexists; reflexivity.
+    - (* save *)
+      destruct s as [r ver ls f iv a io]. cbn [version] in V.
+      assert (E : (ver + 1 =? 1) = false) by (apply Z.eqb_neq; lia).
+      unfold set_init_set, do_save, version_exists, working_version. cbv zeta.
+      cbn [root version last_saved forest init_ver init_set init_opt]. rewrite E. cbn [andb].
+      destruct (lookup (ver + 1) f) as [e|].
+      + match goal with |- context [if ?c then _ else _] => destruct c end;
+          cbn [fst snd root version last_saved forest init_ver init_set init_opt]; eexists; reflexivity.
+      + cbn [fst snd root version last_saved forest init_ver init_set init_opt]. eexists; reflexivity.
+    - exists b. destruct s; reflexivity.
+    - (* reopen: the fresh tree takes the flag from the option *)
+      unfold do_reopen. cbv zeta. unfold set_init_set at 1 2 3.
+      cbn [root version last_saved forest init_ver init_set init_opt].
+      destruct (do_load _ 0) as [s' x]. exists (init_set s').
+      destruct x; cbn [fst snd]; rewrite set_init_set_same; reflexivity.
+    - exists b. apply do_load_upto.
+    - destruct s as [r ver ls f iv a io]. unfold set_init_set, do_prune, latest_version.
+      cbn [root version last_saved forest init_ver init_set init_opt].
+      destruct (_ <=? n); cbn [fst snd root version last_saved forest init_ver init_set init_opt];
+        eexists; reflexivity.
+    - unfold do_lvfo. rewrite do_load_upto. destruct (do_load s w) as [s' x]. cbn [fst snd].
+      exists b. destruct x; reflexivity.
+    - assert (W : working_version (set_init_set s b) = working_version s).
+      { unfold working_version, set_init_set. cbn [version init_set init_ver].
+        replace (version s + 1 =? 1) with false by (symmetry; apply Z.eqb_neq; lia). reflexivity. }
+      exists b. destruct t as [|w].
+      + rewrite W. reflexivity.
+      + unfold set_init_set at 1. cbn [forest]. destruct (lookup w (forest s)); reflexivity.
+    - exists b. unfold set_init_set at 1. cbn [forest]. destruct (lookup w (forest s)) as [[n|]|]; reflexivity.
+    - exists b. reflexivity.
+    - exists b. reflexivity.
+    - exists b. reflexivity.
+    - exists b. unfold working_version, set_init_set. cbn [version init_set init_ver root fst snd].
+      replace (version s + 1 =? 1) with false by (symmetry; apply Z.eqb_neq; lia). reflexivity.
+    - exists b. unfold working_version, set_init_set. cbn [version init_set init_ver root fst snd].
+      replace (version s + 1 =? 1) with false by (symmetry; apply Z.eqb_neq; lia). reflexivity.
+    - exists b. reflexivity.
+  Qed.
+
+  (** under the contract a non-empty store never becomes empty again *)
+  Lemma step_nonempty s o :
+    contig s -> in_contract s o -> forest s <> [] -> forest (fst (step H s o)) <> [].
+  Proof.
+    intros C IC NE.
+    destruct (contig_cases s C) as [(_ & F & _)|(_ & L & R & P & _)]; [congruence|].
+    destruct o as [k x|k|k| | | |w|n|w|t q|k w|w| | | | | ]; cbn [step in_contract] in *; try exact NE.
+    - destruct (do_set_same s k x) as (_ & _ & E & _). rewrite E. exact NE.
+    - destruct (do_remove_same s k) as (_ & _ & E & _). rewrite E. exact NE.
+    - pose proof (do_save_keeps H s _ _ L) as K. intros E. rewrite E in K. discriminate.
+    - rewrite do_reopen_forest. exact NE.
+    - rewrite do_load_forest. exact NE.
+    - destruct (prune_range H s n C NE IC) as (_ & _ & _ & _ & _ & [NE' _] & _). exact NE'.
+    - unfold do_lvfo. destruct (do_load_pos s w) as [E|(r & Lw & E)]; [lia| |]; rewrite E; cbn [fst]; auto.
+      cbn [forest]. intros E'.
+      assert (K : lookup w (filter (fun p => fst p <=? w) (forest s)) = Some r).
+      { rewrite lookup_filter_le, Z.leb_refl. exact Lw. }
+      rewrite E' in K. discriminate.
+    - destruct t as [|w]; [exact NE|]. destruct (lookup w (forest s)); exact NE.
+    - destruct (lookup w (forest s)) as [[n|]|]; exact NE.
+  Qed.
+
+  (** two states that differ only in the flag produce the same outputs forever *)
+  Theorem run_upto_init_set ops : forall s b,
+    contig s -> forest s <> [] -> run_ok H s ops ->
+    snd (run H (set_init_set s b) ops) = snd (run H s ops) /\
+    exists b', fst (run H (set_init_set s b) ops) = set_init_set (fst (run H s ops)) b'.
+  Proof.
+    induction ops as [|o ops IH]; intros s b C NE R.
+    - cbn [run fst snd]. split; [reflexivity|]. exists b. reflexivity.
+    - destruct R as [IC R]. rewrite !run_cons. cbn [fst snd].
+      assert (V : version s <> 0).
+      { destruct (contig_cases s C) as [(_ & F & _)|(_ & _ & Rg & P & _)]; [congruence|lia]. }
+      destruct (step_upto_init_set s b o V) as [b1 E]. rewrite E. cbn [fst snd].
+      destruct (IH (fst (step H s o)) b1 (step_contig H s o C IC) (step_nonempty s o C IC NE) R)
+        as [O [b' S]].
+      rewrite O, S. split; [reflexivity|]. exists b'. reflexivity.
+  Qed.
+
+  (** C09, observational form: after LoadVersionForOverwriting(v) every in-contract future
+      produces exactly the outputs it produces from the base state. *)
+  Theorem lvfo_indistinguishable s1 v ops ops' :
+    base_state s1 v -> run_ok H s1 ops -> forallb (no_prune_above v) ops = true ->
+    run_ok H s1 ops' ->
+    let s2 := fst (run H s1 ops) in
+    snd (step H s2 (OLvfo v)) = XOk /\
+    snd (run H (fst (step H s2 (OLvfo v))) ops') = snd (run H s1 ops') /\
+    exists b', fst (run H (fst (step H s2 (OLvfo v))) ops') = set_init_set (fst (run H s1 ops')) b'.
+  Proof.
+    intros B R NP R' s2. unfold s2. rewrite (lvfo_equals_history_ended_at_v H s1 v ops B R NP).
+    cbn [fst snd]. split; [reflexivity|].
+    destruct (base_lookup s1 v B) as [_ NE]. destruct B as (C & _).
+    apply run_upto_init_set; assumption.
+  Qed.
+
+  (** and the states are equal outright when the flag did not move *)
+  Corollary lvfo_restores_exactly s1 v ops :
+    base_state s1 v -> run_ok H s1 ops -> forallb (no_prune_above v) ops = true ->
+    init_set (fst (run H s1 ops)) = init_set s1 ->
+    step H (fst (run H s1 ops)) (OLvfo v) = (s1, XOk).
+  Proof.
+    intros B R NP I. rewrite (lvfo_equals_history_ended_at_v H s1 v ops B R NP), I, set_init_set_same.
+    reflexivity.
+  Qed.
+End UpToInitSet.
+
+(** ** The degenerate "initial version 0" is outside the contract: the first commit is
+    version 0; after reopening, the working version is 0 again instead of 1, and the next
+    commit (with different contents) is rejected as a conflicting overwrite of version 0. *)
+Example initial_version_zero_refuted :
+  exists ops,
+    run_okb (fun b => b) (init_state 0 true) ops = true /\
+    snd (run (fun b => b) (init_state 0 true) ops) =
+      [XBool false; XPair (XBytes (Some [0; 2; 0; 1; 1; 32; 1]%N)) (XInt 0);   (* commit: version 0 *)
+       XOk; XInt 0;                                                           (* reopen; working version 0 *)
+       XBool false; XErr;                                                     (* second commit fails *)
+       XInts [0]; XInt 0] /\
+    ~ contig (fst (run (fun b => b) (init_state 0 true) ops)).
+Proof.
+  exists [OSet [1%N] [1%N]; OSave; OReopen; OWorkingVersion; OSet [2%N] [2%N]; OSave;
+          OAvailable; OLatest].
+  split; [vm_compute; reflexivity|]. split; [vm_compute; reflexivity|].
+  intros ((_ & F) & _). vm_compute in F. inversion F as [|x l [P _] _]. apply P. reflexivity.
+Qed.
+
+(** ** History level: every in-contract history keeps one contiguous range *)
+Theorem reachable_range (H : bytes -> bytes) iv b ops :
+  init_ok iv b -> run_ok H (init_state iv b) ops ->
+  let s := fst (run H (init_state iv b) ops) in
+  contig s /\
+  ((forest s = [] /\ available s = [] /\ first_version s = 0 /\ latest_version s = 0 /\
+    version s = 0) \/
+   (forest s <> [] /\ 1 <= first_version s <= latest_version s /\
+    init_ver s <= first_version s /\
+    first_version s <= version s <= latest_version s /\
+    available s = zrange (first_version s) (latest_version s))).
+Proof.
+  intros I R s. pose proof (reachable_contig H iv b ops I R) as C. fold s in C.
+  split; [exact C|apply available_range, C].
+Qed.
+
+(** ** Why the contract says [1 <= v] for LoadVersionForOverwriting: target 0 means "load the
+    latest version" to LoadVersion, and then every version > 0 is deleted: the store is left
+    with no version at all while the working tree is still based on version 2.  (Pruning the
+    version the working tree is based on breaks the order of the retained versions, see
+    [MTreeFacts.versions_not_ascending].) *)
+Example lvfo_zero_refuted :
+  let ops := [OSet [1%N] [1%N]; OSave; OSet [2%N] [2%N]; OSave; OLvfo 0; OAvailable; OWorkingVersion] in
+  let r := run (fun b => b) (init_state 0 false) ops in
+  skipn 4 (snd r) = [XOk; XInts []; XInt 3] /\ version (fst r) = 2 /\ forest (fst r) = [] /\
+  ~ contig (fst r).
+Proof.
+  cbv zeta. split; [vm_compute; reflexivity|]. split; [vm_compute; reflexivity|].
+  split; [vm_compute; reflexivity|].
+  intros (_ & [(V & _)|L] & _); [vm_compute in V|vm_compute in L]; discriminate.
+Qed.
